@@ -343,6 +343,23 @@ def _(c, m, x):
     return k * rsome.exp(e).sum() + 1.0 <= r, ("expsum", ev, lambda xv: (rv(xv) - 1.0) / k)
 
 
+@case("exp-scaled-then-summed", exact=False)
+def _(c, m, x):
+    e, ev = lin(c, x, 2, "in")
+    r, rv = _rhs(c, x, ())
+    k = _mult(c)
+    # (k * exp(v)).sum() + 1 <= t: the factor applied BEFORE sum() scales the exponential terms, not only the other side
+    return (k * rsome.exp(e)).sum() + 1.0 <= r, ("expsum", ev, lambda xv: (rv(xv) - 1.0) / k)
+
+
+@case("exp-scaled-then-summed-reflected", exact=False)
+def _(c, m, x):
+    e, ev = lin(c, x, 2, "in")
+    r, rv = _rhs(c, x, ())
+    k = _mult(c)
+    return r >= (rsome.exp(e) * k).sum(), ("expsum", ev, lambda xv: rv(xv) / k)
+
+
 def _expsum2d(axis):
     def build(c, m, x):
         e0, ev0 = lin(c, x, 2, "in0")
